@@ -45,6 +45,8 @@ ImplicitOK(r) ==
   /\ (Count(r, "warning") = 1 => (LastIs(r, "warning") /\ Len(LineToks(r)) >= 1 /\ NulLines(r) # {}))
   /\ (NulLines(r) = {} => Len(LineToks(r)) = Cardinality(Matching(r)))     \* no NUL: nothing may be dropped
   /\ (Count(r, "warning") = 1 => \A j \in 1..Len(r.out) : r.out[j].k # "ctx" \/ j < Len(r.out))
+  \* cut off after something was printed => the warning is there
+  /\ ((Len(LineToks(r)) >= 1 /\ \E i \in Matching(r) : \A j \in 1..Len(LineToks(r)) : LineToks(r)[j].i # i) => Count(r, "warning") = 1)
 
 \* explicitly named, or --binary: at most a notice; silent only if no line matches
 ConvertOK(r) ==
@@ -59,7 +61,14 @@ ConvertOK(r) ==
   /\ (Matching(r) # {} => (Len(LineToks(r)) >= 1 \/ Count(r, "notice") = 1))
   /\ (NulLines(r) = {} => (Count(r, "notice") = 0 /\ Len(LineToks(r)) = Cardinality(Matching(r))))
 
-Allowed(r) == IF r.mode = "text" THEN TextOK(r)
+\* summary modes (-c, -l) on an explicitly named / --binary file: a file with a matching line is not reported as empty
+SummaryOK(r) == /\ ~r.nulout
+                /\ (r.summary = "count" => (Matching(r) # {} => (Len(r.out) = 1 /\ r.out[1].k = "count" /\ r.out[1].i >= 1)))
+                /\ (r.summary = "list" => (Matching(r) # {} => (Len(r.out) = 1 /\ r.out[1].k = "listed")))
+                /\ (Matching(r) = {} => \A j \in 1..Len(r.out) : r.out[j].k = "count" /\ r.out[j].i = 0)
+
+Allowed(r) == IF r.summary # "none" THEN (IF r.mode = "binary" \/ r.naming = "explicit" THEN SummaryOK(r) ELSE ~r.nulout)
+              ELSE IF r.mode = "text" THEN TextOK(r)
               ELSE IF r.mode = "binary" \/ r.naming = "explicit" THEN ConvertOK(r)
               ELSE ImplicitOK(r)
 
